@@ -219,4 +219,6 @@ PARTS = [
     Part('edge_lists', check_explicit, strategy=lambda tier: gen_explicit(),
          n={'quick': 400, 'thorough': 8000}, workers={'quick': 4, 'thorough': 16},
          doc='explicit shrinkable edge lists (with duplicates) up to 9x9'),
+    Part('fuzz_edge_lists', None, fuzz_of='edge_lists', runs={'quick': 0, 'thorough': 60000}, workers={'quick': 0, 'thorough': 8},
+         doc='atheris campaign over explicit edge lists (pure-Python matching code is fully instrumented)'),
 ]
